@@ -663,7 +663,7 @@ def main(run, shard=(0, 1)) -> None:
 
     probe = ReturnProbe(sm, (sm.AngleBase,), lambda a, code: on_angle(a, code) if attr_ok(a) else None)
     probe.start()
-    n = 40000 if run.tier == 'thorough' else 1500
+    n = 400000 if run.tier == "thorough" else 1500
     for i in range(n):
         if mine(i, shard):
             run_history(run, run.seed, 'history', i, 40)
